@@ -34,7 +34,7 @@ VarIdx == CHOOSE j \in 1..Len(WantSegs) : WantSegs[j] = VarSeg
 HasVar == \E j \in 1..Len(WantSegs) : WantSegs[j] = VarSeg
 (* When the parameter lives in the path, a wrong number of segments is the parameter's failure (its value swallowed or   *)
 (* added segments), reported under `param`; a path value outside the fragment changes the structure by definition.       *)
-InPath == cx.kind # "body" /\ odef.loc = "path"
+InPath == cx.kind \in {"param", "url"} /\ odef.loc = "path"
 Frag == FragmentAt(odef, oval, o.x, o.pm)
 UrlV == IF InPath /\ Frag # "T" THEN "U"
         ELSE IF ~StructOK THEN (IF InPath THEN "T" ELSE "F:structure")
@@ -42,12 +42,25 @@ UrlV == IF InPath /\ Frag # "T" THEN "U"
 
 W == [seg |-> IF StructOK /\ HasVar THEN GotSegs[VarIdx] ELSE <<>>, pmode |-> o.pm, query |-> o.q,
       hpresent |-> o.hp, hval |-> o.hv, cpresent |-> o.cp, cookie |-> o.ck]
-ParamV == IF cx.kind = "body" THEN [v |-> "T", why |-> ""]
+ParamV == IF cx.kind \in {"body", "hist"} THEN [v |-> "T", why |-> ""]
           ELSE IF odef.loc = "path" /\ ~StructOK
                THEN (IF Frag # "T" THEN [v |-> "U", why |-> Frag] ELSE [v |-> "F", why |-> "structure"])
           ELSE ParamVerdict(odef, oval, W, o.x)
 (* nothing else: no query string unless the parameter lives there *)
-ExtraV == IF (cx.kind = "body" \/ odef.loc # "query") /\ o.q # <<>> THEN "F" ELSE "T"
+ExtraV == IF cx.kind # "hist" /\ (cx.kind = "body" \/ odef.loc # "query") /\ o.q # <<>> THEN "F" ELSE "T"
+(* one send of a history: the case plus this call's extras on the wire, and the case object untouched (o.mut = containers that changed) *)
+HistV == IF cx.kind # "hist" THEN "T"
+         ELSE LET kv == QParts(o.q)
+                  ns == Dec([j \in 1..Len(kv) |-> kv[j].a], "form")
+                  vs == Dec([j \in 1..Len(kv) |-> kv[j].b], "form")
+                  qp == UNION {{<<x[j], y[j]>> : j \in 1..Len(kv)} : x \in ns, y \in vs}
+                  ck == IF o.cp THEN CookiePairs(o.ck) ELSE <<>>
+                  cpairs == {<<ck[j].a, ck[j].b>> : j \in 1..Len(ck)}
+                  own == {<<o.hx[j].n, o.hx[j].v>> : j \in 1..Len(o.hx)}
+              IN  IF ns = {} \/ vs = {} \/ qp # WantQueryPairs(oval, cx.step) \/ Len(kv) # Cardinality(WantQueryPairs(oval, cx.step)) THEN "F:query"
+                  ELSE IF cpairs # WantCookiePairs(cx.step) \/ Len(ck) # Cardinality(WantCookiePairs(cx.step)) THEN "F:cookie"
+                  ELSE IF own # WantOwnHeaders(cx.step) \/ Len(o.hx) # Cardinality(WantOwnHeaders(cx.step)) THEN "F:header"
+                  ELSE IF o.mut # <<>> THEN "F:case-mutated" ELSE "T"
 MethodV == IF o.m = cx.wantMethod THEN "T" ELSE "F"
 (* Content-Type = the case's media type; for multipart the client appends the boundary parameter, so only the media type is compared *)
 Multipart == cx.media \in {"multipart", "multipart-file", "multipart-raw"}
@@ -72,6 +85,7 @@ e == Obs.env[i]
 Standard == {"host", "user-agent", "accept", "accept-encoding", "connection", "content-length", "content-type", "transfer-encoding"}
 Allowed == Standard \cup {"x-schemathesis-testcaseid"} \cup {e.conf[j].name : j \in 1..Len(e.conf)}
              \cup (IF e.loc = "header" THEN {"p"} ELSE {}) \cup (IF e.loc = "cookie" THEN {"cookie"} ELSE {})
+             \cup (IF e.loc \in {"hist", "hist-headers"} THEN {"cookie", "x-h"} ELSE {}) \cup (IF e.loc = "hist-headers" THEN {"x-e"} ELSE {})
 HdrsV == IF \A j \in 1..Len(e.hnames) : e.hnames[j] \in Allowed THEN "T" ELSE "F"
 ConfV == IF \A j \in 1..Len(e.conf) : e.conf[j].present /\ e.conf[j].got = e.conf[j].want THEN "T" ELSE "F"
 IdV == IF e.gotId = e.wantId /\ e.wantId # "" THEN "T" ELSE "F"
@@ -80,6 +94,6 @@ HostV == IF e.gotHost = e.wantHost THEN "T" ELSE "F"
 Report == IF i = 0 THEN TRUE
           ELSE IF mode = "core"
           THEN PrintT(<<"V", ToJson([i |-> i, url |-> UrlV, param |-> ParamV.v, why |-> ParamV.why, extra |-> ExtraV,
-                                     method |-> MethodV, ctype |-> CtypeV, body |-> BodyV])>>)
+                                     method |-> MethodV, ctype |-> CtypeV, body |-> BodyV, hist |-> HistV])>>)
           ELSE PrintT(<<"E", ToJson([i |-> i, hdrs |-> HdrsV, conf |-> ConfV, id |-> IdV, host |-> HostV])>>)
 =============================================================================
